@@ -246,7 +246,7 @@ fn exercise_program(name: &str, spec: &ProgSpec, rng: &mut Rng, enumerate_cap: u
         let clean = write_under_plan(&program, stack, Teardown::FlushChecked, &WritePlan::clean(), 4 * reference.len() + 1024, false);
         out.evaluations += 1;
         if let Some((o, d)) = judge(&reference, &WritePlan::clean(), Teardown::FlushChecked, &clean) {
-            if o.starts_with("O1") && matches!(stack, Stack::Line | Stack::NamedConsole) {
+            if o.starts_with("O1") && matches!(stack, Stack::Line | Stack::BoxedLine) {
                 *out.probes.entry("linewriter_internal_short_write").or_insert(0) += 1;
             }
             out.violations.push((clean_case.clone(), o, d));
@@ -317,7 +317,7 @@ fn exercise_program(name: &str, spec: &ProgSpec, rng: &mut Rng, enumerate_cap: u
                 if case.plan.at.iter().any(|(i, _)| *i + 1 == calls) {
                     *out.probes.entry("fault_in_last_call").or_insert(0) += 1;
                 }
-                if matches!(stack, Stack::Buf | Stack::BufSmall(_) | Stack::NamedFile) && o.fired.short + o.fired.limit > 0 && max_req >= 8192 {
+                if matches!(stack, Stack::Buf | Stack::BufSmall(_) | Stack::BoxedBuf) && o.fired.short + o.fired.limit > 0 && max_req >= 8192 {
                     *out.probes.entry("bufwriter_bypass_with_short_write").or_insert(0) += 1;
                 }
                 if teardown == Teardown::DropOnly && o.fired.any_hard() && o.serialize.is_ok() {
